@@ -188,6 +188,27 @@ func c17IndepOps(in *c17indep) []c17op {
 		{"indep.Sanitize", func(_ *c17shared, a int) string {
 			return influxql.Sanitize("create user u with password '" + in.strs[a%len(in.strs)] + "'; " + in.texts[a%len(in.texts)])
 		}},
+		{"indep.ParseErrors", func(_ *c17shared, a int) string {
+			// statements that fail at the first dispatch steps, with near-miss
+			// keywords: the error (found token, expected list, message, position)
+			// is the caller's, also after other parses have failed elsewhere
+			texts := []string{"SEL v FROM m", "DEL FROM m", "CREATE DATA x", "SHOW TAG K", "SHOW FIELD", "DROP RET x", "ALTER x", "GRANT", "SHOW GRANTS x", "KILL x", "SET x", "REVOKE ALL x", "CREATE CONTINUOUS x", "SHOW MEASUREMENT x", "EXPLAIN x", "SHOW SHARD x", "CREAT", "SHOW CONT", "DROP", "SHOW"}
+			var sb strings.Builder
+			var errs []error
+			for k := 0; k < 4; k++ {
+				_, err := influxql.ParseStatement(texts[(a*4+k)%len(texts)])
+				errs = append(errs, err)
+			}
+			for _, err := range errs {
+				// read the first error only after the later ones were made
+				if pe, ok := err.(*influxql.ParseError); ok {
+					sb.WriteString(fmt.Sprintf("%q %q %v %v|%s\n", pe.Found, pe.Message, pe.Expected, pe.Pos, pe.Error()))
+				} else {
+					sb.WriteString(fmt.Sprint(err) + "\n")
+				}
+			}
+			return sb.String()
+		}},
 		{"indep.Language.Clone+customise", func(_ *c17shared, a int) string {
 			// an embedding server extends its own copy of the dispatch tree while
 			// other goroutines parse with the process-wide one
